@@ -166,6 +166,7 @@ def chfOp (guard : SplitGuard) (sl : ChfSt) : Tok → ChfSt × String
        (((step guard sl.1 op).1, ledgersStep sl.1 sl.2 op), "ok " ++ annot sl.1 sl.2 op)
      | _, _, _ => (sl, "bad-op"))
   | ["end"] => (sl, "ok")
+  | ["slowdb", _] => (sl, "ok")      -- the store answers slowly: no effect on the sequential model
   | ["reset"] => (({}, []), "ok")
   | "create" :: t =>
     (match pReq t with
